@@ -671,7 +671,29 @@ func scenC05(g *Gen, dir string) ([]*Op, func(e *Env, i int, op *Op, obs []strin
 	total := int64(nobj) + 6
 	contentEdit := -1
 	vFinal := v
-	switch k := r.Intn(18); k {
+	switch k := r.Intn(20); k {
+	case 19:
+		// the group gets a second signature in the *other* format, from someone the verifier has no
+		// key material for at all (PGP next to DSSE or the other way round): all of a group's
+		// signatures have to be valid under the trusted keys, so the request must fail
+		edit = "co-sign in the other signature format, verify with key material for the first format only"
+		u := getUniverse()
+		s2 := SOpts{PGP: -1, T: TOpt{Kind: "det"}}
+		if s.PGP >= 0 {
+			s2.DSSE = []int{100 + r.Intn(len(u.DSSE))}
+		} else {
+			s2.PGP = r.Intn(len(u.PGP))
+			s2.NoSalt = true
+		}
+		ops = append(ops, &Op{Kind: "sign", S: s2})
+	case 18:
+		// an unsigned object that is typed as a signature and linked to the very group it is put
+		// into (its bytes: a well-formed legacy-format blob, which non-legacy verification does not
+		// take for a signature of the group): it is a member of the group like any other
+		edit = "add an unsigned signature-typed object, linked to the group, into the signed group"
+		data := r.Bytes(5)
+		ent := r.Intn(len(getUniverse().PGP))
+		ops = append(ops, &Op{Kind: "add", T: TOpt{Kind: "det"}, DI: sigObjectDI(legacyBlob(ent, data, crypto.SHA256), gid, 0, 1, getUniverse().PGP[ent].PrimaryKey.Fingerprint, gid)})
 	case 17:
 		// co-sign, then lose the end of the file (a copy that stopped early): the last signature
 		// object, one of two its group now has, reaches past the end of the storage
@@ -1729,6 +1751,12 @@ func scenC16(g *Gen, dir string) ([]*Op, func(e *Env, i int, op *Op, obs []strin
 		}
 		ent := r.Intn(len(u.PGP))
 		fp := u.PGP[ent].PrimaryKey.Fingerprint
+		if r.Chance(1, 8) {
+			// a writer that records no fingerprint in the signature descriptors (the field is all zero):
+			// the descriptor does not name the signing key, so no legacy request may succeed
+			fp = make([]byte, 20)
+			g.count("base:legacy-signature-descriptors-without-fingerprint")
+		}
 		ht := pick(r, []crypto.Hash{crypto.SHA256, crypto.SHA384, crypto.SHA512})
 		htN := map[crypto.Hash]int64{crypto.SHA256: 1, crypto.SHA384: 2, crypto.SHA512: 3}[ht]
 		if r.Chance(2, 3) { // object-linked legacy signatures
@@ -2287,9 +2315,34 @@ func scenC17(g *Gen, dir string) ([]*Op, func(e *Env, i int, op *Op, obs []strin
 	}
 	u := getUniverse()
 	create, groups := g.baseImage(3, 14)
+	many := r.Chance(1, 25)
+	if many {
+		// well over sixty-four groups (one object each), all but the last signed by one entity and the
+		// last by another: more verification tasks than fit any machine word
+		n := 66 + r.Intn(6)
+		var dis []DI
+		groups = map[uint32][]uint32{}
+		for k := 1; k <= n; k++ {
+			dis = append(dis, DI{DT: 0x4007, Fail: -1, Data: DataSpec{Lit: []byte{byte(k), 'x'}}, Opts: []DIOpt{{Kind: "group", N: uint32(k)}}})
+			groups[uint32(k)] = []uint32{uint32(k)}
+		}
+		create = &Op{Kind: "create", Backend: "buf", COpts: []CreateOpt{{Kind: "cap", I: int64(2*n + 8)}, {Kind: "det"}, {Kind: "descs", DIs: dis}}}
+		g.count("variant:more-than-64-groups")
+	}
 	ops := []*Op{keysOp(), create}
 	gs := sortedGroups(groups)
 	signersOf := map[uint32][]int{}
+	if many {
+		a := r.Intn(len(u.PGP))
+		b := (a + 1 + r.Intn(len(u.PGP)-1)) % len(u.PGP)
+		ops = append(ops, &Op{Kind: "sign", S: SOpts{PGP: a, Groups: gs[:len(gs)-1], T: TOpt{Kind: "det"}, NoSalt: true}},
+			&Op{Kind: "sign", S: SOpts{PGP: b, Groups: gs[len(gs)-1:], T: TOpt{Kind: "det"}, NoSalt: true}})
+		for _, gid := range gs[:len(gs)-1] {
+			signersOf[gid] = []int{a}
+		}
+		signersOf[gs[len(gs)-1]] = []int{b}
+		gs = nil // (the per-group signing below is skipped)
+	}
 	for _, gid := range gs {
 		n := r.Intn(4) // 0-3 PGP signers per group
 		for k := 0; k < n; k++ {
@@ -2301,9 +2354,10 @@ func scenC17(g *Gen, dir string) ([]*Op, func(e *Env, i int, op *Op, obs []strin
 			ops = append(ops, &Op{Kind: "sign", S: SOpts{PGP: -1, DSSE: []int{100 + r.Intn(len(u.DSSE))}, Groups: []uint32{gid}, T: TOpt{Kind: "det"}}})
 		}
 	}
+	gs = sortedGroups(groups)
 	// sometimes a group also carries a legacy-format signature by somebody else: listings made for
 	// current-format tasks must not count it (and legacy listings must not count current ones)
-	if r.Chance(1, 4) {
+	if r.Chance(1, 4) && !many {
 		gid := pick(r, gs)
 		ent := r.Intn(len(u.PGP))
 		ops = append(ops, &Op{Kind: "add", T: TOpt{Kind: "det"}, DI: sigObjectDI(legacyBlob(ent, []byte("whatever the group held"), crypto.SHA256), gid, 0, 1, u.PGP[ent].PrimaryKey.Fingerprint, 0)})
@@ -2311,7 +2365,7 @@ func scenC17(g *Gen, dir string) ([]*Op, func(e *Env, i int, op *Op, obs []strin
 	}
 	// sometimes a signature descriptor names another entity than the one that signed
 	forged := false
-	if r.Chance(1, 3) {
+	if r.Chance(1, 3) && !many {
 		gid := pick(r, gs)
 		ent := r.Intn(len(u.PGP))
 		other := (ent + 1 + r.Intn(len(u.PGP)-1)) % len(u.PGP)
@@ -2329,7 +2383,11 @@ func scenC17(g *Gen, dir string) ([]*Op, func(e *Env, i int, op *Op, obs []strin
 	}
 	ops = append(ops, factsOp(), obsOp())
 	sel := VOpts{NoVS: true, NoKR: true}
-	switch r.Intn(4) {
+	selKind := r.Intn(4)
+	if many {
+		selKind = 0 // every group: the default tasks
+	}
+	switch selKind {
 	case 1:
 		sel.Groups = []uint32{pick(r, gs)}
 	case 2:
